@@ -372,7 +372,7 @@ def check_property(pid, tier, keep=False):
         for jn, fls in by_job.items():
             j = J.by_name(jn)
             kn = [match_known(sig, fl, j, known) for fl, sig in fls]
-            replay_dir = os.path.join(VERIF, "replays", pid)
+            replay_dir = os.path.join(os.environ.get("VERIF_REPLAY_DIR", os.path.join(VERIF, "replays")), pid)
             os.makedirs(replay_dir, exist_ok=True)
             rp = os.path.join(replay_dir, "%s.json" % j.name)
             rec = {"property": pid, "harness": j.path, "package": j.pkg, "tier": tier,
@@ -501,8 +501,9 @@ def write_evidence(pid, tier, joblist, results, reported, inconclusive, foreign,
         "wall_s": round(wall, 1),
         "violations": sum(1 for r in reported if "known" not in r),
     }
-    os.makedirs(os.path.join(VERIF, "evidence"), exist_ok=True)
-    p = os.path.join(VERIF, "evidence", "%s.json" % pid)
+    evdir = os.environ.get("VERIF_EVIDENCE_DIR", os.path.join(VERIF, "evidence"))
+    os.makedirs(evdir, exist_ok=True)
+    p = os.path.join(evdir, "%s.json" % pid)
     tmp = p + ".tmp%d" % os.getpid()
     with open(tmp, "w") as f:
         json.dump(ev, f, indent=1)
